@@ -1642,4 +1642,103 @@ theorem toDuration_val {s : F64} (hs : isFinite s = true)
   rw [toInt64_eq_trunc f (by rw [v, show pow2 63 = 9223372036854775808 by decide]; grind)
     (by rw [v, show pow2 63 = 9223372036854775808 by decide]; grind), v]
 
+/-! ### 8. clamp-then-convert: a parts-per-million slew bound (PLL)
+
+The PLL clamps `p` to `[d * -500e-6, d * 500e-6]` (`d = math.Ceil(dt)`, an integer number of
+seconds) and hands `timemath.Duration(p)` to the clock: the slew is at most 500 µs per second,
+in integer nanoseconds, with no rounding slack — for `d ≤ 6·10^9` s. -/
+
+/-- the double nearest to `500e-6` -/
+def c500ppm : Rat := rnd (1 / 2000)
+
+theorem c500ppm_bounds :
+    1 / 2000 - 1 / 2000 / 9007199254740992 ≤ c500ppm ∧ c500ppm ≤ 1 / 2000 + 1 / 2000 / 9007199254740992 := by
+  have h : pow2 (-1022) ≤ ((1 : Rat) / 2000).abs := by
+    rw [Rat.abs_of_nonneg (by grind)]
+    refine Rat.le_trans (pow2_mono (show (-1022 : Int) ≤ -11 by decide)) ?_
+    rw [show pow2 (-11) = 1 / 2048 by rw [pow2_neg]; congr 1]; grind
+  have e := rnd_err_rel h
+  rw [Rat.abs_of_nonneg (show (0 : Rat) ≤ 1 / 2000 by grind), show pow2 53 = 9007199254740992 by decide,
+    abs_le_iff] at e
+  unfold c500ppm; grind
+
+theorem ofConst_500ppm : toRat (ofConst 500 1000000) = c500ppm := by
+  unfold ofConst c500ppm
+  have e : ((500 : Int) : Rat) / ((1000000 : Nat) : Rat) = 1 / 2000 := by
+    simp only [Rat.intCast_ofNat, Rat.natCast_ofNat]; grind
+  rw [e]
+  refine toRat_roundNE_of_le (Rat.le_trans ?_ (pow2_le_maxFin (K := 0) (by decide)))
+  rw [pow2_zero, abs_le_iff]; grind
+
+private theorem slew_arith {d x r1 r2 η : Rat} (hd : d ≤ 6000000000)
+    (hη : η ≤ 1 / 1152921504606846976)
+    (hx : x ≤ d * (1 / 2000 + 1 / 2000 / 9007199254740992))
+    (e1 : r1 - x ≤ x / 9007199254740992 + η)
+    (e2 : r2 - r1 * 1000000000 ≤ r1 * 1000000000 / 9007199254740992 + η) :
+    r2 < 500000 * d + 1 := by
+  grind
+
+/-- the clamp value, converted: `rnd (rnd (d·c)·10^9) < 500000·d + 1` -/
+theorem slew_upper {d : Rat} (hd0 : 0 ≤ d) (hd : d ≤ 6000000000) :
+    rnd (rnd (d * c500ppm) * 1000000000) < 500000 * d + 1 := by
+  obtain ⟨cl, cu⟩ := c500ppm_bounds
+  have hc0 : 0 ≤ c500ppm := by grind
+  have hx0 : 0 ≤ d * c500ppm := Rat.mul_nonneg hd0 hc0
+  have hx : d * c500ppm ≤ d * (1 / 2000 + 1 / 2000 / 9007199254740992) :=
+    Rat.mul_le_mul_of_nonneg_left cu hd0
+  have h1 : 0 ≤ rnd (d * c500ppm) := rnd_nonneg hx0
+  have e1 := rnd_err_gen (d * c500ppm)
+  have e2 := rnd_err_gen (rnd (d * c500ppm) * 1000000000)
+  rw [show pow2 53 = 9007199254740992 by decide, abs_le_iff,
+    Rat.abs_of_nonneg hx0] at e1
+  rw [show pow2 53 = 9007199254740992 by decide, abs_le_iff,
+    Rat.abs_of_nonneg (show 0 ≤ rnd (d * c500ppm) * 1000000000 by grind)] at e2
+  have hη : pow2 (-1075) ≤ 1 / 1152921504606846976 := by
+    rw [show (1 : Rat) / 1152921504606846976 = pow2 (-60) by rw [pow2_neg]; congr 1]
+    exact pow2_mono (by decide)
+  exact slew_arith hd hη hx e1.2 e2.2
+
+/-- PLL slew bound: if `p` lies between the two clamp values `∓rnd (d·c)` for an integer
+    number of seconds `0 ≤ k ≤ 6·10^9` (`d = k`), then `timemath.Duration(p)` — the truncation of
+    `rnd (p·10^9)` — is at most `500000·k` ns in magnitude: 500 ppm, exactly. -/
+theorem ppm_slew_bound {k : Int} (hk0 : 0 ≤ k) (hk : k ≤ 6000000000) {p : Rat}
+    (hp1 : -(rnd ((k : Rat) * c500ppm)) ≤ p) (hp2 : p ≤ rnd ((k : Rat) * c500ppm)) :
+    -(500000 * k) ≤ trunc (rnd (p * 1000000000)) ∧ trunc (rnd (p * 1000000000)) ≤ 500000 * k := by
+  have hd0 : (0 : Rat) ≤ (k : Rat) := by
+    have : ((0 : Int) : Rat) ≤ (k : Rat) := Rat.intCast_le_intCast.2 hk0
+    rwa [Rat.intCast_zero] at this
+  have hd : (k : Rat) ≤ 6000000000 := by
+    have : (k : Rat) ≤ ((6000000000 : Int) : Rat) := Rat.intCast_le_intCast.2 hk
+    simpa using this
+  have hu := slew_upper hd0 hd
+  generalize hr : rnd ((k : Rat) * c500ppm) = r1 at *
+  have hcast : ((500000 * k + 1 : Int) : Rat) = 500000 * (k : Rat) + 1 := by
+    rw [Rat.intCast_add, Rat.intCast_mul]; simp
+  -- upper side
+  have up : trunc (rnd (p * 1000000000)) ≤ 500000 * k := by
+    have m := trunc_mono (rnd_mono (show p * 1000000000 ≤ r1 * 1000000000 by grind))
+    have : trunc (rnd (r1 * 1000000000)) < 500000 * k + 1 := by
+      by_cases hs : 0 ≤ rnd (r1 * 1000000000)
+      · have t := (trunc_of_nonneg hs).2.1
+        have : ((trunc (rnd (r1 * 1000000000)) : Int) : Rat) < ((500000 * k + 1 : Int) : Rat) := by
+          rw [hcast]; grind
+        exact Rat.intCast_lt_intCast.1 this
+      · have := (trunc_of_nonpos (show rnd (r1 * 1000000000) ≤ 0 by grind)).1
+        omega
+    omega
+  -- lower side, by symmetry
+  have lo : -(500000 * k) ≤ trunc (rnd (p * 1000000000)) := by
+    have m := trunc_mono (rnd_mono (show -(r1 * 1000000000) ≤ p * 1000000000 by grind))
+    rw [rnd_neg] at m
+    have : -(500000 * k + 1) < trunc (-(rnd (r1 * 1000000000))) := by
+      by_cases hs : 0 ≤ rnd (r1 * 1000000000)
+      · have t := (trunc_of_nonpos (show -(rnd (r1 * 1000000000)) ≤ 0 by grind)).2.1
+        have : ((-(500000 * k + 1) : Int) : Rat) < ((trunc (-(rnd (r1 * 1000000000))) : Int) : Rat) := by
+          rw [Rat.intCast_neg, hcast]; grind
+        exact Rat.intCast_lt_intCast.1 this
+      · have := (trunc_of_nonneg (show 0 ≤ -(rnd (r1 * 1000000000)) by grind)).1
+        omega
+    omega
+  exact ⟨lo, up⟩
+
 end ScionTime.F64
